@@ -190,11 +190,11 @@ theorem setValue_keeps_called (P : Prog) (n : Nat) (name : Str) (vals : List Str
   | none => exact ⟨rfl, rfl, fun _ => rfl⟩
   | some t =>
     simp only
-    cases hs : save ext false (P.opt t) vals with
+    cases hs : save ext (P.opt t).lowerKeys (P.opt t) vals with
     | error e => exact ⟨rfl, rfl, fun _ => rfl⟩
     | ok o' =>
       simp only
-      have hk := save_keeps ext false (P.opt t) o' vals hs
+      have hk := save_keeps ext (P.opt t).lowerKeys (P.opt t) o' vals hs
       by_cases ht : oid = t
       · subst ht
         by_cases hlen : oid < P.opts.length
